@@ -2,13 +2,16 @@
 C17 — "No sequence of failed, aborted, malformed, slow or non-ACME connections, in any order and
 concurrency, stops tacd from answering a subsequent valid acme-tls/1 handshake correctly, in the
 build profile the project ships (release, panic=abort)."
-Theorems about the survival state machine of `Model/Tacd.lean`. The instance on the unchanged tree
-is (`panics`, `abort`): `tacd/src/openssl_server.rs:22` `acceptor.accept(stream).unwrap()` in the
-connection thread, `Cargo.toml:11` `panic = 'abort'`.
+Theorems about the survival state machine of `Model/Tacd.lean`. The instance on the unrepaired tree
+was (`panics`, `abort`): `acceptor.accept(stream).unwrap()` in the connection thread
+(`tacd/src/openssl_server.rs:22` before commit 633d75a), `Cargo.toml:11` `panic = 'abort'`. The
+instance of the working tree is read from `Gen/Profile.lean` (regenerated on every run):
+`shipped_survives` only compiles while that instance is a surviving one.
 -/
 import AcmedVerif.Model.Tacd
 import AcmedVerif.Lemmas.Tacd
 import AcmedVerif.Spec.C17
+import AcmedVerif.Gen.Profile
 
 namespace AcmedVerif.Props.C17
 open AcmedVerif.Tacd
@@ -41,24 +44,35 @@ theorem survives_iff (f : OnFailure) (s : PanicStrategy) :
     apply survives_all_histories
     cases f <;> cases s <;> simp at hn ⊢
 
-/-- The full C17 statement is FALSE of the shipped instance: a client offering a foreign ALPN
-protocol (or plain HTTP, garbage, connect-and-close) followed by a valid validation attempt. -/
-theorem c17_full_is_false :
-    predict shippedOnFailure shippedPanicStrategy [.foreignAlpn, .validAcme] = .dead ∧
+/-- The full C17 statement was FALSE of the unrepaired instance (`unwrap` + `panic = 'abort'`): a
+client offering a foreign ALPN protocol (or plain HTTP, garbage, connect-and-close) followed by a
+valid validation attempt. -/
+theorem c17_unrepaired_is_false :
+    predict unrepairedOnFailure unrepairedPanicStrategy [.foreignAlpn, .validAcme] = .dead ∧
+    instanceOf true 0 true = (unrepairedOnFailure, unrepairedPanicStrategy) ∧
     Spec.C17.holds [.foreignAlpn, .validAcme] false false = false := by
-  refine ⟨by decide, by decide⟩
+  refine ⟨by decide, by decide, by decide⟩
 
-/-- … and of every catalogue history: after the repair (`ignored`, `abort`) the prediction is
-`alive` for every sequence of behaviours. Stalled and abandoned connections produce no event: each
-is parked in its own thread. -/
-theorem predict_alive_after_repair (history : List Behaviour) :
-    predict .ignored shippedPanicStrategy history = .alive :=
-  survives_all_histories _ _ (Or.inl rfl) _
+/-- The instance extracted from the working tree. -/
+def shipped : OnFailure × PanicStrategy :=
+  instanceOf Gen.acceptResultUnwrapped Gen.acceptMacroPanicSites Gen.releasePanicAbort
 
-/-- On the shipped instance the process survives exactly the histories without a failing
+/-- **The working tree's instance survives every history** (this proof is checked against the
+regenerated `Gen/Profile.lean`; it stops compiling if `unwrap` or another panic site comes back on
+the connection path while `panic = 'abort'` is shipped). Stalled and abandoned connections
+produce no event: each is parked in its own thread. -/
+theorem shipped_survives (history : List Conn) : run shipped.1 shipped.2 history = .alive :=
+  survives_all_histories _ _ (by decide) history
+
+theorem shipped_predict_alive (history : List Behaviour) :
+    predict shipped.1 shipped.2 history = .alive :=
+  shipped_survives _
+
+/-- On the unrepaired instance the process survives exactly the histories without a failing
 handshake. -/
-theorem shipped_alive_iff (history : List Conn) :
-    run shippedOnFailure shippedPanicStrategy history = .alive ↔ .handshakeFailed ∉ history := by
+theorem unrepaired_alive_iff (history : List Conn) :
+    run unrepairedOnFailure unrepairedPanicStrategy history = .alive ↔
+      .handshakeFailed ∉ history := by
   induction history with
   | nil => simp [run]
   | cons c cs ih =>
@@ -67,7 +81,7 @@ theorem shipped_alive_iff (history : List Conn) :
       simp only [run, List.foldl_cons, step] at ih ⊢
       rw [ih]; simp
     | handshakeFailed =>
-      have : run shippedOnFailure shippedPanicStrategy (.handshakeFailed :: cs) = .dead :=
+      have : run unrepairedOnFailure unrepairedPanicStrategy (.handshakeFailed :: cs) = .dead :=
         (dies_is_reachable _ _ ⟨rfl, rfl⟩).2 cs
       rw [this]; simp
 
@@ -76,29 +90,29 @@ Ok(stream)`) and never exits: after every sequence of accept results in which th
 create threads, the loop is running and exactly one handler thread was spawned per accepted
 connection. -/
 theorem accept_loop_continues (evs : List AcceptEv) (h : ∀ e ∈ evs, e ≠ .okSpawnFails) :
-    (acceptRun evs).running = true ∧ (acceptRun evs).spawned = evs.count .ok := by
+    (acceptRun false evs).running = true ∧ (acceptRun false evs).spawned = evs.count .ok := by
   have := acceptRun_spec evs h { running := true, spawned := 0 } rfl
   simpa [acceptRun] using this
 
-/-- The boundary of the previous theorem: `thread::spawn` panics when the OS refuses a new thread;
-that panic is on the MAIN thread and ends the loop under either panic strategy. Nothing bounds the
-number of parked connection threads (no handshake timeout), so enough stalled connections reach
-this state. -/
-theorem accept_loop_spawn_failure_exits (before after : List AcceptEv) :
-    (acceptRun (before ++ .okSpawnFails :: after)).running = false := by
-  have hdead : ∀ (evs : List AcceptEv) (st : LoopState), st.running = false →
-      (evs.foldl acceptStep st).running = false := by
-    intro evs
-    induction evs with
-    | nil => intro st h; exact h
-    | cons e es ih =>
-      intro st h
-      rw [List.foldl_cons]
-      apply ih
-      simp [acceptStep, h]
+/-- … and that is the loop of the working tree. -/
+theorem shipped_accept_loop_continues (evs : List AcceptEv) (h : ∀ e ∈ evs, e ≠ .okSpawnFails) :
+    (acceptRun Gen.acceptLoopExitsOnErr evs).running = true :=
+  (accept_loop_continues evs h).1
+
+/-- A loop that left on `Err` would stop at the first failed `accept(2)` (e.g. `EMFILE`,
+`ECONNABORTED`). -/
+theorem accept_loop_exit_on_err_is_reachable :
+    (acceptRun true [.ok, .err, .ok]).running = false := by decide
+
+/-- The boundary of `accept_loop_continues`: `thread::spawn` panics when the OS refuses a new
+thread; that panic is on the MAIN thread and ends the loop under either panic strategy. Nothing
+bounds the number of parked connection threads (no handshake timeout), so enough stalled
+connections reach this state. -/
+theorem accept_loop_spawn_failure_exits (x : Bool) (before after : List AcceptEv) :
+    (acceptRun x (before ++ .okSpawnFails :: after)).running = false := by
   unfold acceptRun
   rw [List.foldl_append, List.foldl_cons]
-  apply hdead
+  apply acceptRun_stopped
   simp only [acceptStep]
   split <;> simp_all
 
